@@ -19,7 +19,7 @@ Definition mx_verdicts : list ba_reply := [BaApprove; BaPending; BaSlowDown; BaD
 Definition with_verdict (o : op) (v : ba_reply) : op :=
   match o with
   | OpToken g r => OpToken g (mkTReq (t_cred r) (t_bind r) (t_scope r) (t_code r) (t_redirect r) (t_refresh r)
-                                     (t_verifier r) (t_auth_req r) (t_hg r) v (t_resources r) (t_assertion r))
+                                     (t_verifier r) (t_auth_req r) (t_hg r) v (t_resources r) (t_assertion r) (t_auth_details r))
   | _ => o
   end.
 
